@@ -409,7 +409,54 @@ def ifft_stub(x, n=None, axis=-1, *a, **k):
     return _real_ifft(x, n, axis, *a, **k)
 
 
-for _f, _n in ((fft_stub, "fft"), (ifft_stub, "ifft")):
+_real_rfft, _real_irfft = _sfft.rfft, _sfft.irfft
+
+
+def _cplx_dtype(x):
+    return _np.complex64 if getattr(x, "dtype", None) in (_np.dtype(_np.complex64), _np.dtype(_np.float32)) else _np.complex128
+
+
+def rfft_stub(x, n=None, axis=-1, *a, **k):
+    """exact half spectrum of a real E-array: bins 0..N//2 of the exact DFT"""
+    if isinstance(x, SymND) or (isinstance(x, _np.ndarray) and x.dtype == object):
+        full = sym_dft(x, axis=axis, n=n)
+        N = full.shape[axis]
+        return SymND(_np.take(full, range(N // 2 + 1), axis=axis), _cplx_dtype(x))
+    return _real_rfft(x, n, axis, *a, **k)
+
+
+def irfft_stub(x, n=None, axis=-1, *a, **k):
+    """exact inverse of rfft_stub: output length n (default 2*(m-1), as SciPy), Hermitian completion of the half spectrum"""
+    if isinstance(x, SymND) or (isinstance(x, _np.ndarray) and x.dtype == object):
+        xm = _np.moveaxis(_np.asarray(plain(x), dtype=object), axis, 0)
+        m = xm.shape[0]
+        N = 2 * (m - 1) if n is None else int(n)
+        if N < 1 or m != N // 2 + 1:
+            raise Unsupported("irfft with a spectrum length other than n//2 + 1")
+        full = _np.empty((N,) + xm.shape[1:], dtype=object)
+        for kk in range(N):
+            if kk < m:
+                full[kk] = xm[kk]
+            else:
+                src = xm[N - kk]
+                conj = _np.empty(src.shape, dtype=object) if isinstance(src, _np.ndarray) else None
+                if conj is None:
+                    full[kk] = SComplex.of(src).conjugate()
+                else:
+                    for ix in _np.ndindex(*src.shape):
+                        conj[ix] = SComplex.of(src[ix]).conjugate()
+                    full[kk] = conj
+        # (the imaginary parts of bin 0 and of the Nyquist bin are ignored by a c2r transform)
+        t = sym_dft(full, axis=0, inverse=True)
+        out = _np.empty(t.shape, dtype=object)
+        for ix in _np.ndindex(*t.shape):
+            out[ix] = SComplex.of(t[ix]).real
+        # (taking the real part drops exactly what a c2r transform ignores: Im X[0] and, for even n, Im X[n/2])
+        return SymND(_np.moveaxis(out, 0, axis), _np.float32 if _cplx_dtype(x) == _np.complex64 else _np.float64)
+    return _real_irfft(x, n, axis, *a, **k)
+
+
+for _f, _n in ((fft_stub, "fft"), (ifft_stub, "ifft"), (rfft_stub, "rfft"), (irfft_stub, "irfft")):
     _f.__name__ = _n
     _f.__qualname__ = _n
 
@@ -438,6 +485,8 @@ def standard_patches(tarr=False, time=True, concretize_int=False):
     p.append((T, "max", sym_max))
     p.append((_sfft, "fft", fft_stub))
     p.append((_sfft, "ifft", ifft_stub))
+    p.append((_sfft, "rfft", rfft_stub))
+    p.append((_sfft, "irfft", irfft_stub))
     if time:
         for mod in (C, T, M):
             p.append((mod, "Time", SymTime))
